@@ -103,6 +103,20 @@ def transl(rng, n=3, lo=1e-6, hi=1e6, pzero=0.12):
         t = np.zeros(n)
         t[rng.integers(n)] = sign(rng) * logu(rng, lo, hi)
         return t
+    if r < pzero + 0.22:
+        # structured translations: components that cancel exactly, equal components, small integers
+        k = rng.integers(4)
+        a = sign(rng) * (float(rng.integers(1, 10)) if rng.random() < 0.5 else logu(rng, lo, min(hi, 1e4)))
+        b = sign(rng) * (float(rng.integers(1, 10)) if rng.random() < 0.5 else logu(rng, lo, min(hi, 1e4)))
+        if k == 0:
+            t = np.array([a, -a, 0.0][:n]) if n == 3 else np.array([a, -a])
+        elif k == 1:
+            t = np.array([a, b, -(a + b)]) if n == 3 else np.array([a, -a])
+        elif k == 2:
+            t = np.full(n, a)
+        else:
+            t = np.array([float(rng.integers(-5, 6)) for _ in range(n)])
+        return t[rng.permutation(n)]
     d = rng.normal(size=n)
     d /= np.linalg.norm(d)
     return d * logu(rng, lo, hi)
